@@ -15,7 +15,7 @@ import sys
 from . import common as cm
 from .c06 import Names, c_dotted, d_dotted, _in_grandchild  # noqa: F401
 
-REQ = ["AutoImp.World", "AutoImp.Needs", "AutoImp.Wire"]
+REQ = ["AutoImp.World", "AutoImp.Needs", "AutoImp.FinderEffects", "AutoImp.Wire"]
 
 ANCHORS = ["pyflyby._autoimp:symbol_needs_import", "pyflyby._autoimp:find_missing_imports",
            "pyflyby._autoimp:ScopeStack.__init__", "pyflyby._autoimp:_MissingImportFinder._visit_Load",
@@ -398,6 +398,68 @@ def model_needs_expr(case, nm, stack, name, builtin_names=None):
     return "run_needs %s %s %s %s" % (cm.clist(levels), loaded, cm.clist(attrs), c_dotted(nm, name))
 
 
+def model_finder_expr(case, nm, calls):
+    """the whole analysis: the thinnest client asking the captured questions in order (Wire.run_finder)"""
+    spec = {int(k): v for k, v in case["objs"].items()}
+    qs = []
+    for call in calls:
+        levels = [cm.clist([cm.cpair(c_dotted(nm, k), c_obj_id(v)) for k, v in sorted(lvl.items())]) for lvl in call["stack"]]
+        qs.append(cm.cpair(cm.clist(levels), c_dotted(nm, call["name"])))
+    loaded = cm.clist([cm.cpair(c_dotted(nm, d), c_obj_id(n)) for d, n in sorted(case["registered"].items())])
+    attrs = []
+    for n, sp in sorted(spec.items()):
+        if sp["kind"] == "plain":
+            continue
+        for a, t in sorted(sp["attrs"].items()):
+            attrs.append("(%s, %s, %s)" % (c_obj_id(n), cm.cN(nm.id(a)), c_obj_id(t)))
+    return "run_finder %s %s %s" % (loaded, cm.clist(attrs), cm.clist(qs))
+
+
+MODULE_LEVEL_NODES = None
+
+
+def predicted_calls(code):
+    """independent prediction of the finder's question list for the module-level fragment (expression
+    statements and assignments to plain names built from names, attributes, calls, operators, subscripts,
+    tuples, constants - no def / lambda / comprehension / class / import): one question per maximal
+    dotted read, in evaluation order.  None outside the fragment."""
+    import ast
+    try:
+        tree = ast.parse(code)
+    except SyntaxError:
+        return None
+    ok = (ast.Module, ast.Expr, ast.Assign, ast.Name, ast.Attribute, ast.Call, ast.BinOp, ast.UnaryOp, ast.Subscript,
+          ast.Tuple, ast.Constant, ast.Load, ast.Store, ast.operator, ast.unaryop, ast.keyword)
+    for n in ast.walk(tree):
+        if not isinstance(n, ok):
+            return None
+        if isinstance(n, ast.Assign) and not all(isinstance(t, ast.Name) for t in n.targets):
+            return None
+    out = []
+
+    def chain(n):
+        if isinstance(n, ast.Name):
+            return n.id
+        if isinstance(n, ast.Attribute):
+            b = chain(n.value)
+            return None if b is None else b + "." + n.attr
+        return None
+
+    def visit(n):
+        if isinstance(n, (ast.Name, ast.Attribute)) and isinstance(n.ctx, ast.Load):
+            c = chain(n)
+            if c is not None:
+                out.append(c)
+                return
+        if isinstance(n, ast.Assign):
+            visit(n.value)                      # the finder visits the value before the targets
+            return
+        for ch in ast.iter_child_nodes(n):
+            visit(ch)
+    visit(tree)
+    return out
+
+
 def model_events(case, nm, mv):
     """the model's trace restricted to what the real objects can record"""
     spec = {int(k): v for k, v in case["objs"].items()}
@@ -500,6 +562,8 @@ def run(ctx):
             for cj, call in enumerate(k["calls"]):
                 exprs.append(model_needs_expr(c, nm, call["stack"], call["name"]))
                 index.append((ci, "call", ki, cj))
+            exprs.append(model_finder_expr(c, nm, k["calls"]))
+            index.append((ci, "finder", ki, None))
     model = cm.coq_eval_json(REQ, exprs, shard=300)
     got = {}
     for key, mv in zip(index, model):
@@ -539,6 +603,29 @@ def run(ctx):
                     ctx.disagreement("symbol_needs_import inside find_missing_imports", {"case": c, "code": k["code"], "call": call},
                                      {"r": call["r"], "events": call["events"]}, {"r": mv["needs"], "events": me})
                 allm += me
+            # the whole analysis (C20_analysis_*): the client asking the captured questions in order must give the
+            # captured answers, in order, and its trace must be the complete event list of find_missing_imports
+            fv = got[(ci, "finder", ki, None)]
+            whole = model_events(c, nm, fv)
+            real_all = [e for e in k["events"] if e[0] == "get" and e[2] != "__class__"]
+            if fv["answers"] != [call["r"] for call in k["calls"]] or whole != real_all or not fv["registered"] \
+               or [d_dotted(nm, q) for q in fv["asked"]] != [call["name"] for call in k["calls"]]:
+                ctx.disagreement("find_missing_imports as a client of symbol_needs_import", {"case": c, "code": k["code"]},
+                                 {"answers": [call["r"] for call in k["calls"]], "events": real_all},
+                                 {"answers": fv["answers"], "events": whole})
+            pc = predicted_calls(k["code"])
+            if pc is not None:
+                ctx.bump("module_level_fragment")
+                import keyword
+                import re
+                code_ = k["code"]
+                fast = bool(re.fullmatch(r"[A-Za-z_]\w*(\.[A-Za-z_]\w*)*", code_)) and not any(keyword.iskeyword(p_) for p_ in code_.split("."))
+                # builtins, _builtins2, the user's namespaces, and (except on the bare-dotted-name fast path) the private scope
+                depth = 2 + len(c["nss"]) + (0 if fast else 1)
+                got_calls = [(call["name"], len(call["stack"])) for call in k["calls"]]
+                if got_calls != [(n_, depth) for n_ in pc]:
+                    ctx.disagreement("questions asked by the finder (module-level fragment): order and arguments",
+                                     {"case": c, "code": k["code"]}, got_calls, [(n_, depth) for n_ in pc])
             outside = [e for e in k["events"] if e[0] != "get" or e[2] != "__class__"]
             inside = [e for call in k["calls"] for e in call["events"] if e[0] != "get" or e[2] != "__class__"]
             if outside != inside:
